@@ -13,11 +13,17 @@
    * for every header whose value is parsed generically, and for From / To, the value is empty or
      begins after the end of the name (inside the line, after the colon).
    PARTIAL: for Call-ID, CSeq, Content-Length, Contact, Expires, P-Asserted-Identity parsed into a
-   PHdrVals only the upper bound of the value is proved (not that it starts after the name); the
-   order of the first-line fields among themselves, white-space trimming of values, the nesting of
-   sub-fields (display name / URI / parameters / tag inside the value; CSeq number and method inside
-   the CSeq value) are not proved: the structural oracle of the C05 driver covers them. *)
-From Sipsp Require Import Harness Framing Resume SafeMore SafeMsg Layout.
+   PHdrVals only the upper bound of the value is proved (not that it starts after the name);
+   white-space trimming of values and the nesting of sub-fields (display name / URI / parameters / tag
+   inside the value; CSeq number and method inside the CSeq value) are proved only for texts of the
+   documented shapes (C07 / C09 / C10 specs give the exact extents there), otherwise: the structural
+   oracle of the C05 driver.
+   The first-line fields among themselves (C05_first_line_fields_in_order, from the C08 converse):
+   in every accepted first line method, URI and version (resp. version, status code, reason) are
+   non-overlapping, in text order, one byte apart, the first starting at the start offset and the
+   last ending one or two bytes (the line end) before the returned offset. *)
+From Sipsp Require Import Harness Framing Resume SafeMore SafeMsg Layout FLineConv.
+From Sipsp Require Import Tables.
 
 Theorem C05_body_and_raw_message : forall m h e,
   pf_end (m_body (finished m h e)) = h + (e - h) /\
@@ -99,5 +105,14 @@ Example C05_example :
   | _ => False
   end.
 Proof. vm_compute. split; reflexivity. Qed.
+Theorem C05_first_line_fields_in_order : forall (p rest : list byte) o s,
+  parse_fline (p ++ rest) (nnat (length p)) fline0 = Done o EOk s ->
+  let i := nnat (length p) in
+  if prefix_nocase go_sipVerSP rest
+  then po (fl_version s) = i /\ pf_end (fl_version s) + 1 = po (fl_statuscode s) /\ pl (fl_statuscode s) = 3 /\
+       pf_end (fl_statuscode s) + 1 = po (fl_reason s) /\ pf_end (fl_reason s) < o /\ o <= pf_end (fl_reason s) + 2
+  else po (fl_method s) = i /\ 0 < pl (fl_method s) /\ pf_end (fl_method s) + 1 = po (fl_uri s) /\ 0 < pl (fl_uri s) /\
+       pf_end (fl_uri s) + 1 = po (fl_version s) /\ 0 < pl (fl_version s) /\ pf_end (fl_version s) < o /\ o <= pf_end (fl_version s) + 2.
+Proof. exact first_line_fields_in_order. Qed.
 Print Assumptions C05_message.
 Print Assumptions C05_message_every_schedule.
